@@ -123,7 +123,7 @@ def main(tier, seed):
                 'sum over every axis, tile, diag, triu/tril, trace, symvec/vecsym, negative, conjugate/real/imag, fft/ifft, zeros/ones(-like); '
                 'non-trivial = the index map is not the identity resp. the op changes the layout; distinct by (op, shape, arguments)')
     rep.assumptions = ['numpy.shares_memory / write-through are runtime facts: NumPy applied to one coefficient slice is the reference',
-                       'triu/tril, trace, symvec/vecsym, conj/real/imag, fft are decided by the slice-wise NumPy predicate only; sum / tile / diag additionally against the Coq model Reduce.v']
+                       'symvec/vecsym, conj/real/imag, fft are decided by the slice-wise NumPy predicate only; sum / tile / diag / triu / tril / trace additionally against the Coq models Reduce.v and Mask.v']
     rep.theorems()
     rng = lib.rng_for(seed, PID)
     UTPM = algopy.UTPM
@@ -277,6 +277,7 @@ def main(tier, seed):
     r10.c13_fft_out_buffers(rep, algopy, rng, tier)
     import r12
     r12.c13_reduce_model(rep, algopy, rng, tier, PID)
+    r12.c13_mask_model(rep, algopy, rng, tier, PID)
     return rep.finish()
 
 
